@@ -253,3 +253,14 @@ func satEntriesSX(rk *model.AlternativesRanking) SX {
 	}
 	return out
 }
+
+// heurConsideredOrder: the considered alternatives handed to a heuristic are the request's `choseToMake`, in
+// the request's order (the fixed search order is defined by it)
+func heurConsideredOrder(o *Out, m Meta, dm *model.DecisionMaker, d *model.DecisionMakingParams) {
+	ok := len(d.ConsideredAlternatives) == len(dm.ChoseToMake)
+	for i := 0; ok && i < len(dm.ChoseToMake); i++ {
+		ok = d.ConsideredAlternatives[i].Id == dm.ChoseToMake[i]
+	}
+	m.Stage = "considered-in-request-order"
+	o.Oracle(m, ok, "the considered alternatives are not the request's choseToMake in the request's order")
+}
